@@ -18,6 +18,7 @@ func init() {
 			`R13.2 the three-state save protocol: WantSave asks the source and moves to 'waiting' only from 'idle'; the source callback stores the source checkpoint and moves to 'has checkpoint'; PopCheckpoint returns a checkpoint only in that state, built from r.offset and r.sourceCheckpoint, and is not reachable from ReadMessage (so the offset is a message boundary); ` +
 			`R13.3 codec pairing: the algorithms with a registered compressor are exactly those with a registered decompressor, each Apply builds its stream with a constructor from a package named after the algorithm, and NONE is a pass-through on both sides; ` +
 			`R13.4 every magic constant written has a reader expecting the same constant; R13.5 in package wire the byte count returned by a Read call is never discarded (a source may return 0, nil at a save point); R13.6 every success return of ReadMessage has passed msg.Reset() and the unmarshalling of the bytes just read (decoding merges, so without the reset an all-default message reads back as its predecessor). ` +
+			`R13.7 WriteMessage writes the varint length and then the marshalled bytes on every success path, empty payloads included; R13.8 every success return of WriteContext.Close has tested the writer against an interface with a Close method and, on the branch where the test held, invoked it (CompressWire hands the compressor to a WriteContext: its Close writes the final block and trailer that make the stream end). ` +
 			`NOT decided: the round trip itself, buffer regrowth, decompressor checkpoints lagging the message offset (savior's code).`,
 		Assumptions: []string{"the underlying source is the field source of wire.ReadContext"},
 		Run:         runC13,
@@ -208,6 +209,60 @@ func runC13(c *core.Ctx) {
 	}
 
 	ruleSaveProtocol(c)
+
+	// ---- R13.7: the writer frames every message the way the reader expects: on every success path the
+	// varint of the marshalled length is written, then the marshalled bytes (also when there are none)
+	c.Rule("R13.7", "WriteMessage writes the length prefix and the payload on every success path")
+	if wm := c.P.Fn("wire", "WriteContext.WriteMessage"); wm == nil {
+		c.Missing("R13.7", "wire.(*WriteContext).WriteMessage", "not found")
+	} else {
+		var marshal *ssa.Call
+		core.Instrs(wm, func(in ssa.Instruction) {
+			if cl, ok := in.(*ssa.Call); ok && strings.HasSuffix(core.CalleeName(cl), "proto.Marshal") {
+				marshal = cl
+			}
+		})
+		isWriteOf := func(pred func(ssa.Value) bool) ipred {
+			return func(in ssa.Instruction) bool {
+				cl, ok := in.(*ssa.Call)
+				if !ok || !cl.Call.IsInvoke() || cl.Call.Method.Name() != "Write" || len(cl.Call.Args) != 1 {
+					return false
+				}
+				return pred(cl.Call.Args[0])
+			}
+		}
+		isPayload := isWriteOf(func(v ssa.Value) bool { return marshal != nil && extractOf(v, marshal, 0) })
+		isPrefix := isWriteOf(func(v ssa.Value) bool {
+			// a slice of the varint buffer cut at what PutUvarint returned
+			for _, o := range core.Origins(v) {
+				if sl, ok := o.(*ssa.Slice); ok && sl.High != nil {
+					for _, h := range core.Origins(sl.High) {
+						if hc, ok := h.(*ssa.Call); ok && strings.HasSuffix(core.CalleeName(hc), "binary.PutUvarint") {
+							return true
+						}
+					}
+				}
+			}
+			return false
+		})
+		n := 0
+		for _, rs := range successReturns(wm) {
+			n++
+			p := core.FindPath(wm, nil, isInstr(rs.Ret), isPrefix)
+			c.Check(p == nil, "R13.7", core.FnName(wm), "length prefix written before success", core.InstrPos(rs.Ret),
+				"every path to this success return writes the varint length", "WriteMessage can succeed without writing the length prefix: the reader decodes the following bytes as a length").Path = c.P.PathStrings(p)
+			p = core.FindPath(wm, nil, isInstr(rs.Ret), isPayload)
+			c.Check(p == nil, "R13.7", core.FnName(wm), "payload written before success", core.InstrPos(rs.Ret),
+				"every path to this success return writes the marshalled bytes", "WriteMessage can succeed without writing the payload it announced").Path = c.P.PathStrings(p)
+			for _, pw := range allInstrs(wm, isPrefix) {
+				p2 := core.FindPath(wm, pw, isPayload, nil)
+				c.Check(p2 != nil, "R13.7", core.FnName(wm), "the payload follows the prefix", core.InstrPos(pw), "prefix, then payload", "the payload is not written after the prefix")
+			}
+		}
+		c.Floor("R13.7", "success returns of WriteMessage", n, 1)
+	}
+
+	ruleWriterCloseFinishesStream(c)
 
 	// ---- R13.4 magic pairing
 	written, expected := map[int64][]string{}, map[int64][]string{}
@@ -587,4 +642,169 @@ func ruleSaveProtocol(c *core.Ctx) {
 
 	ruleCodecPairing(c, "R13.3")
 
+}
+
+// ruleWriterCloseFinishesStream is R13.8: "read back as the same sequence followed by end-of-stream" needs
+// the compressor's trailer, which only the compressor's Close writes; CompressWire hands the compressor to
+// a WriteContext, so WriteContext.Close is what finishes the stream. Whatever else Close does (flushing,
+// logging), every return must have asked whether the writer has a Close method, and when it has, must have
+// invoked it.
+func ruleWriterCloseFinishesStream(c *core.Ctx) {
+	c.Rule("R13.8", "WriteContext.Close closes the underlying writer whenever it has a Close method")
+	fn := c.P.Fn("wire", "WriteContext.Close")
+	if fn == nil {
+		c.Missing("R13.8", "wire.(*WriteContext).Close", "not found")
+		return
+	}
+	fname := core.FnName(fn)
+	fromWriter := func(v ssa.Value) bool {
+		for _, o := range core.Origins(v) {
+			if _, n, ok := core.FieldOf(o); ok && n == "writer" {
+				return true
+			}
+			if ld, ok := o.(*ssa.UnOp); ok && ld.Op == token.MUL {
+				if _, n, ok := core.FieldOf(ld.X); ok && n == "writer" {
+					return true
+				}
+			}
+		}
+		return false
+	}
+	hasClose := func(t types.Type) bool {
+		it, ok := t.Underlying().(*types.Interface)
+		if !ok {
+			return false
+		}
+		for i := 0; i < it.NumMethods(); i++ {
+			if it.Method(i).Name() == "Close" {
+				return true
+			}
+		}
+		return false
+	}
+	var asserts []*ssa.TypeAssert
+	core.Instrs(fn, func(in ssa.Instruction) {
+		if ta, ok := in.(*ssa.TypeAssert); ok && hasClose(ta.AssertedType) && fromWriter(ta.X) {
+			asserts = append(asserts, ta)
+		}
+	})
+	c.Floor("R13.8", "type assertions of the writer to an interface with Close", len(asserts), 1)
+	if len(asserts) == 0 {
+		return
+	}
+	isAssert := func(in ssa.Instruction) bool {
+		for _, ta := range asserts {
+			if in == ssa.Instruction(ta) {
+				return true
+			}
+		}
+		return false
+	}
+	// failure returns are not held to this: a Close that reports an error has not claimed a finished stream
+	success := map[ssa.Instruction]bool{}
+	for _, rs := range successReturns(fn) {
+		success[rs.Ret] = true
+		p := core.FindPath(fn, nil, isInstr(rs.Ret), isAssert)
+		c.Check(p == nil, "R13.8", fname, "success return after asking whether the writer is a Closer", core.InstrPos(rs.Ret),
+			"every path to this return tests the writer against an interface with Close", "Close can succeed without ever looking for the writer's Close method: a compressor that is also something else (gzip.Writer has Flush and Close) is never finished, and the stream ends without its trailer").Path = c.P.PathStrings(p)
+	}
+	c.Floor("R13.8", "success returns of WriteContext.Close", len(success), 1)
+	isCloseOf := func(ta *ssa.TypeAssert) ipred {
+		return func(in ssa.Instruction) bool {
+			cl, ok := in.(ssa.CallInstruction)
+			if !ok || !cl.Common().IsInvoke() || cl.Common().Method.Name() != "Close" {
+				return false
+			}
+			for _, o := range core.Origins(cl.Common().Value) {
+				if o == ssa.Value(ta) {
+					return true
+				}
+				if ex, ok := o.(*ssa.Extract); ok && ex.Tuple == ssa.Value(ta) {
+					return true
+				}
+			}
+			return false
+		}
+	}
+	for _, ta := range asserts {
+		// the blocks entered knowing the assertion held
+		var starts []*ssa.BasicBlock
+		if !ta.CommaOk {
+			// a plain assertion panics when it fails: everything after it knows it held
+			starts = nil
+			closes := isCloseOf(ta)
+			core.Instrs(fn, func(in ssa.Instruction) {
+				if !success[in] {
+					return
+				}
+				p := core.FindPath(fn, ta, isInstr(in), closes)
+				if p != nil {
+					c.Bad("R13.8", fname, "Close invoked once the writer is known to have one", core.InstrPos(in), "the writer has a Close method and Close returns without invoking it")
+				}
+			})
+			continue
+		}
+		for _, b := range fn.Blocks {
+			iff, ok := b.Instrs[len(b.Instrs)-1].(*ssa.If)
+			if !ok {
+				continue
+			}
+			cond, neg := iff.Cond, false
+			for {
+				if u, ok := cond.(*ssa.UnOp); ok && u.Op == token.NOT {
+					cond, neg = u.X, !neg
+					continue
+				}
+				break
+			}
+			ex, ok := cond.(*ssa.Extract)
+			if !ok || ex.Tuple != ssa.Value(ta) || ex.Index != 1 {
+				continue
+			}
+			if neg {
+				starts = append(starts, b.Succs[1])
+			} else {
+				starts = append(starts, b.Succs[0])
+			}
+		}
+		if len(starts) == 0 {
+			c.Missing("R13.8", fname, "the outcome of the writer's Closer assertion is not tested by a branch")
+			continue
+		}
+		closes := isCloseOf(ta)
+		seen := map[*ssa.BasicBlock]bool{}
+		var bad ssa.Instruction
+		var dfs func(b *ssa.BasicBlock)
+		dfs = func(b *ssa.BasicBlock) {
+			if seen[b] || bad != nil {
+				return
+			}
+			seen[b] = true
+			for _, in := range b.Instrs {
+				if closes(in) {
+					return
+				}
+				if isReturn(in) {
+					if success[in] {
+						bad = in
+					}
+					return
+				}
+			}
+			for _, s := range b.Succs {
+				if ret, ok := s.Instrs[len(s.Instrs)-1].(*ssa.Return); ok && core.ReturnEdgeFails(b, ret) {
+					continue
+				}
+				dfs(s)
+			}
+		}
+		for _, s := range starts {
+			dfs(s)
+		}
+		o := c.Check(bad == nil, "R13.8", fname, "Close invoked once the writer is known to have one", ta.Pos(),
+			"on the branch where the assertion holds every path to a return invokes Close on its result", "the writer has a Close method and Close returns without invoking it: the compressed stream is left without its final block and trailer")
+		if bad != nil {
+			o.Detail += " (return at " + c.P.Pos(bad.Pos()) + ")"
+		}
+	}
 }
